@@ -531,7 +531,7 @@ func init() {
 }
 
 func init() {
-	register(&Rule{ID: "P.proxy", Min: 4, Text: "every presence edit is announced: each editing method of the presence proxy (Set, Delete, Clear, Initialize of presence.Presence) hands a presence change to the change context (Context.SetPresenceChange) on every normal path — no early return skips it, in particular Clear announces a Clear even when the local data is empty (the server-built clear of a deactivated client, and a client that attached without initial presence, start from empty data and must still disappear for everyone); and in package server/packs the in-memory presences of a document are reset (ResetPresences) only on an edge where the presence-disabled flag (DocInfo.DisablePresence / PushPullOptions.DisablePresence) is true",
+	register(&Rule{ID: "P.proxy", Min: 4, Text: "every presence edit is announced: each editing method of the presence proxy (Set, Delete, Clear, Initialize of presence.Presence) hands a presence change to the change context (Context.SetPresenceChange) on every normal path — no early return skips it, in particular Clear announces a Clear even when the local data is empty (the server-built clear of a deactivated client, and a client that attached without initial presence, start from empty data and must still disappear for everyone); and in package server/packs the in-memory presences of a document are reset (ResetPresences) only on an edge where the presence-disabled flag (DocInfo.DisablePresence / PushPullOptions.DisablePresence) is true; server packages never consult the online-only views Presences()/Presence()/MyPresence(), which are always empty on a server-side document",
 		Run: func(x *Ctx) {
 			setPC := x.P.FnObj(changePkg + ".(*Context).SetPresenceChange")
 			if setPC == nil {
@@ -585,6 +585,24 @@ func init() {
 					}
 				}
 			}
+			// the online-only views are client-side notions: on the server nobody is 'online' in a rebuilt document,
+			// so Presences()/Presence()/MyPresence() are always empty there and must not drive a decision
+			online := map[string]bool{"Presences": true, "Presence": true, "MyPresence": true}
+			viol := 0
+			for _, fn := range x.P.ProdFuncs() {
+				if fn.Pkg == nil || !strings.Contains(fn.Pkg.Pkg.Path(), "/server/") {
+					continue
+				}
+				for _, c := range prog.CallsIn(fn) {
+					o := prog.CallObj(c)
+					if o == nil || !online[o.Name()] || o.Pkg() == nil || !strings.HasSuffix(o.Pkg().Path(), "/pkg/document") {
+						continue
+					}
+					viol++
+					x.fail(fmt.Sprintf("func=%s server-uses-online-only-view=%s#%d", prog.FnName(fn), o.Name(), viol), x.pos(c), "server code consults "+o.Name()+"(), the view restricted to online clients, which is always empty on a server-side document: use AllPresences()")
+				}
+			}
+			x.C.Count("server calls of online-only presence views", viol)
 			if n < 4 {
 				x.C.Vacuous(x.id()+" sites", n, 4)
 			}
